@@ -181,6 +181,25 @@ def reindex_database(
     error_file_whitelist = _get_error_file_whitelist(cmd.zettel_dir)
     error_files = error_file_whitelist.read_text().split("\n")
 
+    # Forget the hashes of the files we are about to reindex BEFORE we touch
+    # the DB. If we are interrupted, the next run will then reindex those files
+    # again, no matter what happens to them in the meantime (e.g. an edit that
+    # is undone would otherwise make a half-indexed file look up-to-date).
+    changed_files = {
+        zorg_page_name
+        for zorg_page_name, hash_ in file_to_hash.items()
+        if old_file_to_hash.get(zorg_page_name) != hash_
+    }
+    if changed_files & old_file_to_hash.keys():
+        _write_file_hash_to_disk(
+            file_hash_path,
+            {
+                zorg_page_name: hash_
+                for zorg_page_name, hash_ in old_file_to_hash.items()
+                if zorg_page_name not in changed_files
+            },
+        )
+
     num_of_updates = 0
     pages_to_write_back = []
     for zorg_page_name, hash_ in file_to_hash.copy().items():
